@@ -16,8 +16,8 @@ func FuzzParse(f *testing.F) {
 		if len(b) > maxInput {
 			t.Skip()
 		}
-		c := mkCase("fuzz", string(b))
-		if fl := hx.Handle(c, runCase(c)); fl != nil {
+		c := ptr(mkCase("fuzz", string(b)))
+		if fl := hx.Handle(c, runMin(c)); fl != nil {
 			t.Fatal(fl)
 		}
 	})
